@@ -290,3 +290,268 @@ def label_table(func_node, param):
         for lab in lc.labels:
             table.setdefault(lab, oc)
     return table, default
+
+
+# ---------------------------------------------------------------------------------------------------------------------
+# Symbolic extension: straight-line arithmetic on the parameter (affine terms under floor division), lookup tables.
+# Still no evaluation of the code: regions are solved exactly by inverting the (monotone) terms.
+
+class Term(object):
+    """floor((m*x + a) / b) with m > 0, b > 0 (x the parameter)"""
+
+    def __init__(self, m=1, a=0, b=1):
+        if m <= 0 or b <= 0:
+            raise AnalysisError("dectable: non-monotone arithmetic on the parameter")
+        self.m, self.a, self.b = m, a, b
+
+    def at(self, x):
+        return (self.m * x + self.a) // self.b
+
+    def ge(self, c):
+        """x with term >= c"""
+        # floor(y) >= c  <=>  y >= c  <=>  m x >= c b - a
+        num = c * self.b - self.a
+        return IntSet([(-((-num) // self.m), None)])
+
+    def le(self, c):
+        # floor(y) <= c  <=>  y < c + 1  <=>  m x <= (c+1) b - a - 1
+        num = (c + 1) * self.b - self.a - 1
+        return IntSet([(None, num // self.m)])
+
+    def cmp(self, op, c):
+        if not isinstance(c, int) or isinstance(c, bool):
+            raise AnalysisError("dectable: non-integer bound %r" % (c,))
+        if isinstance(op, ast.GtE):
+            return self.ge(c)
+        if isinstance(op, ast.Gt):
+            return self.ge(c + 1)
+        if isinstance(op, ast.LtE):
+            return self.le(c)
+        if isinstance(op, ast.Lt):
+            return self.le(c - 1)
+        if isinstance(op, ast.Eq):
+            return self.ge(c).intersect(self.le(c))
+        if isinstance(op, ast.NotEq):
+            return self.ge(c).intersect(self.le(c)).complement()
+        raise AnalysisError("dectable: operator %s" % type(op).__name__)
+
+
+_FLIP = {ast.Lt: ast.Gt, ast.LtE: ast.GtE, ast.Gt: ast.Lt, ast.GtE: ast.LtE, ast.Eq: ast.Eq, ast.NotEq: ast.NotEq}
+
+
+def _term(e, param, env):
+    """expression -> Term | int constant"""
+    ok, c = _const(e)
+    if ok:
+        if isinstance(c, bool) or not isinstance(c, int):
+            raise AnalysisError("dectable: non-integer constant %r" % (c,))
+        return c
+    if isinstance(e, ast.Name):
+        if e.id == param:
+            return Term()
+        if e.id in env:
+            return env[e.id]
+        raise AnalysisError("dectable: unknown name %s" % e.id)
+    if isinstance(e, ast.Call) and isinstance(e.func, ast.Name) and e.func.id == "int" and len(e.args) == 1 and not e.keywords:
+        return _term(e.args[0], param, env)
+    if isinstance(e, ast.BinOp):
+        l, r = _term(e.left, param, env), _term(e.right, param, env)
+        if isinstance(l, int) and isinstance(r, int):
+            raise AnalysisError("dectable: constant arithmetic %s" % norm(e))
+        if isinstance(e.op, ast.Add):
+            if isinstance(l, Term) and isinstance(r, int):
+                return Term(l.m, l.a + r * l.b, l.b)
+            if isinstance(r, Term) and isinstance(l, int):
+                return Term(r.m, r.a + l * r.b, r.b)
+        if isinstance(e.op, ast.Sub) and isinstance(l, Term) and isinstance(r, int):
+            return Term(l.m, l.a - r * l.b, l.b)
+        if isinstance(e.op, ast.Mult):
+            t, k = (l, r) if isinstance(l, Term) else (r, l)
+            if isinstance(t, Term) and isinstance(k, int) and k > 0 and t.b == 1:
+                return Term(t.m * k, t.a * k, 1)
+        if isinstance(e.op, ast.FloorDiv) and isinstance(l, Term) and isinstance(r, int) and r > 0:
+            return Term(l.m, l.a, l.b * r)
+    raise AnalysisError("dectable: unsupported arithmetic %s" % norm(e))
+
+
+def sym_cond(cond, param, env):
+    if isinstance(cond, ast.BoolOp):
+        sets = [sym_cond(v, param, env) for v in cond.values]
+        r = sets[0]
+        for s in sets[1:]:
+            r = r.intersect(s) if isinstance(cond.op, ast.And) else r.union(s)
+        return r
+    if isinstance(cond, ast.UnaryOp) and isinstance(cond.op, ast.Not):
+        return sym_cond(cond.operand, param, env).complement()
+    if isinstance(cond, ast.Compare):
+        operands = [cond.left] + list(cond.comparators)
+        r = IntSet.all()
+        for i, op in enumerate(cond.ops):
+            le, re_ = operands[i], operands[i + 1]
+            if isinstance(op, (ast.In, ast.NotIn)) and isinstance(re_, (ast.Tuple, ast.List, ast.Set)):
+                t = _term(le, param, env)
+                if not isinstance(t, Term):
+                    raise AnalysisError("dectable: constant membership test %s" % norm(cond))
+                s = IntSet.empty()
+                for el in re_.elts:
+                    okc, c = _const(el)
+                    if not okc or not isinstance(c, int):
+                        raise AnalysisError("dectable: unsupported member %s" % norm(el))
+                    s = s.union(t.cmp(ast.Eq(), c))
+                r = r.intersect(s.complement() if isinstance(op, ast.NotIn) else s)
+                continue
+            l, rr = _term(le, param, env), _term(re_, param, env)
+            if isinstance(l, Term) and isinstance(rr, int):
+                r = r.intersect(l.cmp(op, rr))
+            elif isinstance(rr, Term) and isinstance(l, int):
+                if type(op) not in _FLIP:
+                    raise AnalysisError("dectable: operator %s" % type(op).__name__)
+                r = r.intersect(rr.cmp(_FLIP[type(op)](), l))
+            else:
+                raise AnalysisError("dectable: comparison not between a term of %s and a constant: %s" % (param, norm(cond)))
+        return r
+    raise AnalysisError("dectable: unsupported condition %s" % norm(cond))
+
+
+ENUM_CAP = 5000
+
+
+def sym_int_table(func_node, param):
+    """[(IntSet region, outcome, lineno, region)] by symbolic execution of the body over regions of the parameter.
+    Handles if/elif/else, return CONST | return <term> | return str(<term>), raise, and `v = <affine/floor-div term>`."""
+    rows = []
+
+    def ret_rows(e, region, ln):
+        if e is None:
+            rows.append((region, ("return", None), ln, region))
+            return
+        if isinstance(e, ast.Constant):
+            rows.append((region, ("return", e.value), ln, region))
+            return
+        okc, c = _const(e)
+        if okc:
+            rows.append((region, ("return", c), ln, region))
+            return
+        as_str = False
+        inner = e
+        if isinstance(e, ast.Call) and isinstance(e.func, ast.Name) and e.func.id == "str" and len(e.args) == 1:
+            as_str, inner = True, e.args[0]
+        t = _term(inner, param, ret_rows.env)
+        if not isinstance(t, Term):
+            raise AnalysisError("dectable: non-constant result %s" % norm(e))
+        for lo, hi in region.ivs:
+            if lo is None or hi is None:
+                # a label for unboundedly many values: certainly not refused there
+                rows.append((IntSet([(lo, hi)]), ("return", "<%s>" % norm(e)), ln, IntSet([(lo, hi)])))
+                continue
+            klo, khi = t.at(lo), t.at(hi)
+            if khi - klo > ENUM_CAP:
+                raise AnalysisError("dectable: too many result values")
+            for k in range(klo, khi + 1):
+                pre = t.cmp(ast.Eq(), k).intersect(IntSet([(lo, hi)]))
+                if not pre.is_empty():
+                    rows.append((pre, ("return", str(k) if as_str else k), ln, pre))
+
+    def run(stmts, region, env):
+        """returns the region that falls out of stmts"""
+        for s in stmts:
+            if region.is_empty():
+                return region
+            if isinstance(s, ast.Expr) and isinstance(s.value, ast.Constant):
+                continue
+            if isinstance(s, ast.Pass):
+                continue
+            if isinstance(s, ast.Assign) and len(s.targets) == 1 and isinstance(s.targets[0], ast.Name):
+                if s.targets[0].id == param:
+                    raise AnalysisError("dectable: the parameter is reassigned at line %d" % s.lineno)
+                t = _term(s.value, param, env)
+                env = dict(env)
+                env[s.targets[0].id] = t if isinstance(t, Term) else None
+                if not isinstance(t, Term):
+                    raise AnalysisError("dectable: constant local at line %d" % s.lineno)
+                continue
+            if isinstance(s, ast.If):
+                c = sym_cond(s.test, param, env)
+                out_t = run(s.body, region.intersect(c), env)
+                out_f = run(s.orelse, region.minus(c), env) if s.orelse else region.minus(c)
+                region = out_t.union(out_f)
+                continue
+            if isinstance(s, ast.Return):
+                ret_rows.env = env
+                ret_rows(s.value, region, s.lineno)
+                return IntSet.empty()
+            if isinstance(s, ast.Raise):
+                e = s.exc
+                if isinstance(e, ast.Call):
+                    e = e.func
+                name = e.id if isinstance(e, ast.Name) else (e.attr if isinstance(e, ast.Attribute) else None)
+                rows.append((region, ("raise", name), s.lineno, region))
+                return IntSet.empty()
+            raise AnalysisError("dectable: unsupported statement at line %d: %s" % (s.lineno, type(s).__name__))
+        return region
+
+    rest = run(func_node.body, IntSet.all(), {})
+    if not rest.is_empty():
+        rows.append((rest, ("return", None), func_node.lineno, rest))
+    return rows
+
+
+def label_lookup_table(func_node, param, resolve):
+    """label -> value functions written as a table lookup.  `resolve(name)` gives the statically evaluated module-level
+    mapping (or None).  Recognised:
+        try: return T[p]  except (KeyError[, TypeError]): raise E(...)
+        if p in T: return T[p]  ... raise E(...)         |  if p not in T: raise E(...) ; return T[p]
+        return T[p]                                        (unknown labels -> KeyError)
+    returns ({label: outcome}, else outcome)"""
+    body = [s for s in func_node.body if not (isinstance(s, ast.Expr) and isinstance(s.value, ast.Constant))]
+
+    def lookup(e):
+        if isinstance(e, ast.Subscript) and isinstance(e.value, ast.Name) and isinstance(e.slice, ast.Name) and e.slice.id == param:
+            t = resolve(e.value.id)
+            if isinstance(t, dict):
+                return t
+        return None
+
+    def exc(s):
+        e = s.exc
+        if isinstance(e, ast.Call):
+            e = e.func
+        return e.id if isinstance(e, ast.Name) else (e.attr if isinstance(e, ast.Attribute) else None)
+
+    table = None
+    default = None
+    if len(body) == 1 and isinstance(body[0], ast.Try) and len(body[0].body) == 1 and isinstance(body[0].body[0], ast.Return) \
+            and not body[0].orelse and not body[0].finalbody:
+        table = lookup(body[0].body[0].value)
+        for h in body[0].handlers:
+            ts = h.type.elts if isinstance(h.type, ast.Tuple) else ([h.type] if h.type is not None else [])
+            names = {t.id for t in ts if isinstance(t, ast.Name)}
+            if (h.type is None or "KeyError" in names or "LookupError" in names or "Exception" in names) \
+                    and len(h.body) == 1 and isinstance(h.body[0], ast.Raise):
+                default = ("raise", exc(h.body[0]))
+        if default is None:
+            default = ("raise", "KeyError")
+    elif len(body) == 1 and isinstance(body[0], ast.Return):
+        table = lookup(body[0].value)
+        default = ("raise", "KeyError")
+    elif len(body) == 2 and isinstance(body[0], ast.If) and not body[0].orelse and isinstance(body[0].test, ast.Compare) \
+            and len(body[0].test.ops) == 1 and isinstance(body[0].test.left, ast.Name) and body[0].test.left.id == param \
+            and isinstance(body[0].test.comparators[0], ast.Name) and len(body[0].body) == 1:
+        tname = body[0].test.comparators[0].id
+        inner, after = body[0].body[0], body[1]
+        if isinstance(body[0].test.ops[0], ast.In) and isinstance(inner, ast.Return) and isinstance(after, ast.Raise):
+            table = lookup(inner.value)
+            default = ("raise", exc(after))
+        elif isinstance(body[0].test.ops[0], ast.NotIn) and isinstance(inner, ast.Raise) and isinstance(after, ast.Return):
+            table = lookup(after.value)
+            default = ("raise", exc(inner))
+        if table is not None and resolve(tname) is not table and resolve(tname) != table:
+            table = None
+    if table is None:
+        raise AnalysisError("dectable: label function is neither an ==-chain nor a recognised table lookup")
+    out = {}
+    for k, v in table.items():
+        if not isinstance(k, str):
+            raise AnalysisError("dectable: non-string label %r in lookup table" % (k,))
+        out[k] = ("return", v)
+    return out, default
